@@ -11,6 +11,7 @@ import (
 	"regexp"
 	"sort"
 	"strings"
+	"sync/atomic"
 	"testing"
 	"time"
 
@@ -35,7 +36,9 @@ type pubCase struct {
 	Before *gen.GraphBP `json:"before,omitempty"`
 	// FaultJobs: run the failing-writer enumeration with these job counts
 	FaultJobs []int `json:"fault_jobs,omitempty"`
-	Hostile   bool  `json:"hostile,omitempty"`
+	// FailFrom > 0 (race children only): every write from this one on fails
+	FailFrom int  `json:"fail_from,omitempty"`
+	Hostile  bool `json:"hostile,omitempty"`
 }
 
 // ---- generator: family graphs with hostile names and pointers ----------------------------------
@@ -134,13 +137,22 @@ func sameSite(a, b map[string]string) (bool, string) {
 	return true, ""
 }
 
+// hangLimit is four orders of magnitude above the time a publish of these documents takes.
+const hangLimit = 30 * time.Second
+
+var hangSeen atomic.Bool
+
 func publish(g *gen.GraphBP, vis string, mask, jobs, failAt int) (*pub.Result, *harness.Failure) {
 	doc, err := gedcom.NewDocumentFromString(g.Text())
 	if err != nil {
 		return nil, harness.Failf("generator-text-rejected", "%v", err)
 	}
 	o := pub.FromMask(mask, vis, jobs)
-	o.FailAt = failAt
+	if failAt >= 0 {
+		o.FailAt = failAt
+	} else {
+		o.FailFrom = -failAt // every write from the k-th on fails
+	}
 	res := pub.Publish(doc, o)
 	if res.Panic != "" || len(res.Panics) > 0 {
 		return nil, harness.Failf("publish-panic", "publishing panics: %q %v\n%s", res.Panic, res.Panics, g.Text())
@@ -308,29 +320,39 @@ func check(c pubCase) (fails []*harness.Failure, st stats) {
 			}
 		}
 	}
-	// faults: the writer fails at the k-th file, for every k
-	if first != nil {
+	// faults: the writer fails at the k-th file, for every k (after the first hang of this
+	// process the enumeration is switched off: every further hang would cost hangLimit again
+	// and leak the blocked goroutines, and one replay is what is needed)
+	if first != nil && !hangSeen.Load() {
 		for _, jobs := range c.FaultJobs {
 			for k := 1; k <= first.Calls; k++ {
-				done := make(chan *pub.Result, 1)
-				go func() {
-					res, _ := publish(c.Doc, c.Vis, c.Mask, jobs, k)
-					done <- res
-				}()
-				select {
-				case res := <-done:
-					st.faults++
-					if res == nil {
-						return one(harness.Failf("publish-panic", "publishing with a failing writer panics")), st
+				// once: only the k-th write fails; from: the k-th and every later write fail
+				for _, mode := range []string{"once", "from"} {
+					failAt := k
+					if mode == "from" {
+						failAt = -k
 					}
-					if res.Failed && res.Err == nil {
-						return one(harness.Failf("write-failure-swallowed", "the writer failed at file %d of %d (jobs=%d) but Publish returned nil", k, first.Calls, jobs)), st
+					done := make(chan *pub.Result, 1)
+					go func() {
+						res, _ := publish(c.Doc, c.Vis, c.Mask, jobs, failAt)
+						done <- res
+					}()
+					select {
+					case res := <-done:
+						st.faults++
+						if res == nil {
+							return one(harness.Failf("publish-panic", "publishing with a failing writer panics")), st
+						}
+						if res.Failed && res.Err == nil {
+							return one(harness.Failf("write-failure-swallowed", "the writer failed at file %d of %d (%s, jobs=%d) but Publish returned nil", k, first.Calls, mode, jobs)), st
+						}
+						if !res.Failed {
+							return one(harness.Failf("fault-not-reached", "oracle: the %d-th write never happened (jobs=%d, %d calls)", k, jobs, res.Calls)), st
+						}
+					case <-time.After(hangLimit):
+						hangSeen.Store(true)
+						return one(harness.Failf("publish-hangs-on-write-failure", "the writer failed at file %d of %d (%s, jobs=%d) and Publish did not return within %v", k, first.Calls, mode, jobs, hangLimit)), st
 					}
-					if !res.Failed {
-						return one(harness.Failf("fault-not-reached", "oracle: the %d-th write never happened (jobs=%d, %d calls)", k, jobs, res.Calls)), st
-					}
-				case <-time.After(60 * time.Second):
-					return one(harness.Failf("publish-hangs-on-write-failure", "the writer failed at file %d of %d (jobs=%d) and Publish did not return within 60 s", k, first.Calls, jobs)), st
 				}
 			}
 		}
@@ -390,11 +412,11 @@ func TestCheckSites(t *testing.T) {
 
 func TestCheckFaults(t *testing.T) {
 	s := harness.NewSub("writer-fails-at-kth-file",
-		"for generated documents the file writer fails at the k-th WriteFile call, for EVERY k from 1 to the number of files (exhaustive per document), with jobs 1 and 4: Publish must return within 60 s with a non-nil error; non-trivial = the document has >= 2 people and a source")
+		"for generated documents the file writer fails at the k-th WriteFile call only, and from the k-th call on (a full disk), for EVERY k from 1 to the number of files (exhaustive per document), with jobs 1, 4 and 16: Publish must return within 30 s with a non-nil error; non-trivial = the document has >= 2 people and a source")
 	s.Rapid(t, harness.Share(harness.Pick(160, 6000)), 191, func(rt *rapid.T) {
 		c := genCase(rt)
 		c.Jobs = []int{1}
-		c.FaultJobs = []int{1, 4}
+		c.FaultJobs = []int{1, 4, 16}
 		s.Crumb(c)
 		fls, st := check(c)
 		s.Eval(harness.JSON(c), st.nontriv, fmt.Sprintf("files<=%d", (st.files/10+1)*10))
@@ -436,7 +458,7 @@ func TestPublishChild(t *testing.T) {
 	var res *pub.Result
 	for r := 0; r < reps; r++ {
 		var f *harness.Failure
-		res, f = publish(c.Doc, c.Vis, c.Mask, jobs, 0)
+		res, f = publish(c.Doc, c.Vis, c.Mask, jobs, -c.FailFrom)
 		if f != nil {
 			fmt.Printf("CHILD-FAILURE %s\n", f.Sig)
 			return
@@ -452,7 +474,8 @@ func runChild(bin, dir string, c pubCase, extraEnv ...string) (string, error) {
 	if err := os.WriteFile(path, b, 0o644); err != nil {
 		return "", err
 	}
-	cmd := exec.Command(bin, "-test.run", "^TestPublishChild$", "-test.timeout", "300s")
+	// (a publish of these documents takes milliseconds, seconds under the race detector)
+	cmd := exec.Command(bin, "-test.run", "^TestPublishChild$", "-test.timeout", "90s")
 	cmd.Env = append(append(os.Environ(), "VERIF_C19_CHILD="+path, "VERIF_OUT=", "VERIF_CRUMB="), extraEnv...)
 	out, err := cmd.CombinedOutput()
 	return string(out), err
@@ -539,15 +562,19 @@ func TestCheckRace(t *testing.T) {
 	}
 	defer os.RemoveAll(dir)
 	s := harness.NewSub("race-detector",
-		"generated documents published with jobs in {2,8,16} and repetitions in a -race build of this check (one child process per case, GOMAXPROCS in {1,2,16}); any 'WARNING: DATA RACE' is a failure classified by its two innermost functions; non-trivial = >= 2 people")
+		"generated documents published with jobs in {2,8,16} and repetitions (a quarter of them into a writer that fails from the k-th file on, so that several workers fail at once) in a -race build of this check (one child process per case, GOMAXPROCS in {1,2,16}); any 'WARNING: DATA RACE' is a failure classified by its two innermost functions; non-trivial = >= 2 people")
 	s.Rapid(t, harness.Share(harness.Pick(48, 1500)), 193, func(rt *rapid.T) {
 		c := genCase(rt)
 		c.Jobs = []int{rapid.SampledFrom([]int{2, 8, 16}).Draw(rt, "jobs")}
 		c.Reps = harness.Pick(2, 5)
+		if rapid.IntRange(0, 3).Draw(rt, "failing") == 0 && !hangSeen.Load() {
+			// several workers see a failing writer at the same time
+			c.FailFrom = rapid.IntRange(1, 6).Draw(rt, "failFrom")
+		}
 		gmp := rapid.SampledFrom([]int{1, 2, 16}).Draw(rt, "gomaxprocs")
 		out, err := runChild(bin, dir, c, fmt.Sprintf("GOMAXPROCS=%d", gmp), "GORACE=halt_on_error=1")
 		nt := len(c.Doc.People) >= 2
-		s.Eval(harness.JSON(c), nt, fmt.Sprintf("gomaxprocs=%d", gmp), fmt.Sprintf("jobs=%d", c.Jobs[0]))
+		s.Eval(harness.JSON(c), nt, fmt.Sprintf("gomaxprocs=%d", gmp), fmt.Sprintf("jobs=%d", c.Jobs[0]), fmt.Sprintf("failing-writer=%v", c.FailFrom > 0))
 		if nt {
 			s.MaybeSample(c)
 		}
@@ -556,6 +583,9 @@ func TestCheckRace(t *testing.T) {
 		case strings.Contains(out, "WARNING: DATA RACE"):
 			fl = harness.Failf("race:"+raceSignature(out), "data race while publishing (jobs=%d, GOMAXPROCS=%d):\n%s", c.Jobs[0], gmp, trunc(out, 3000))
 		case !strings.Contains(out, "CHILD-DIGEST") && !strings.Contains(out, "CHILD-FAILURE"):
+			if c.FailFrom > 0 {
+				hangSeen.Store(true) // no further failing-writer children in this shard: each would wait for its timeout
+			}
 			fl = harness.Failf("race-child-died", "the race child did not finish (%v):\n%s", err, trunc(out, 3000))
 		}
 		if fl != nil && s.Report(c, fl) {
